@@ -1,6 +1,6 @@
 From Coq Require Import Extraction ExtrOcamlBasic.
-From Mamba Require Import Search.Model Search.ShardModel Search.ShardPreds Search.OrderlyInstCheckModel.
+From Mamba Require Import Search.Model Search.ShardModel Search.ShardPreds Search.OrderlyInstCheckModel Search.OrderlyInstKsubModel.
 Extraction Language OCaml.
 Extraction "model.ml" outputs init p_edges3 p_maxdeg2 p_triangle p_none
   check_upto check_level check_graph check_perm check_orb check_ksub check_early label_check label_pair_check
-  vbs_all vbs_deg vbs_mixed all_graphs get_aut vg_of_edges.
+  vbs_all vbs_deg vbs_mixed all_graphs get_aut vg_of_edges ksub_real.
